@@ -89,6 +89,26 @@ def distinct_constants_infeasible(val):
     return any(len(cs) > 1 for cs in eqs.values())
 
 
+def canonical_when(F, text):
+    """Lemma (what C13.symbols-linkages verifies): the language string of a constant linkage -- `c_link.language().what()` -- is the
+    interned reserved word the constant was built from.  A test of the argument against that string and a test against
+    internal_string("C") are the same atom; the condition is rewritten to the second form."""
+    import re
+    from facts import walk
+    if 'linkwords' not in _ROWS:
+        d = {}
+        for g in F.globals:
+            if g['t'].replace('const ', '').strip() == 'ipr::Linkage' and g.get('constexpr') and 'init' in g:
+                lits = [bytes(n.get('bytes', [])).decode('utf-8', 'replace') for n in walk(g['init']) if n.get('k') == 'lit' and n.get('lt') == 'str']
+                if len(lits) == 1:
+                    d[contracts.short(g['q'])] = lits[0]
+                    d[g['q'].replace('(anonymous namespace)', '(anon)')] = lits[0]
+        _ROWS['linkwords'] = d
+    for q, w in _ROWS['linkwords'].items():
+        text = re.sub(re.escape(q) + r'\.[A-Za-z_]+\.Basic_unary<const String &>operand\(\)', f'ipr::impl::(anon)internal_string("{w}")', text)
+    return text
+
+
 def named_constants(F):
     """value of every named integral constant the library refers to (folded by the compiler at the point of use)"""
     if 'consts' not in _ROWS:
@@ -227,7 +247,7 @@ def run(ck, F):
         if not same_shape:
             # the tests may have been restructured: compare what is selected for every valuation of the atomic conditions
             sig = lambda p: json.dumps({k: v for k, v in p.items() if k not in ('when', 'stored_params')}, sort_keys=True)
-            eq, wit = guards.equivalent([(p.get('when', ''), sig(p)) for p in want], [(p.get('when', ''), sig(p)) for p in paths],
+            eq, wit = guards.equivalent([(canonical_when(F, p.get('when', '')), sig(p)) for p in want], [(canonical_when(F, p.get('when', '')), sig(p)) for p in paths],
                                         same=(lambda x, y, val, fid=fid: absorbed_qualification(fid, x, y, val)),
                                         infeasible=(lambda val: reserved_word_infeasible(F, val) or distinct_constants_infeasible(val)))
             if eq:
